@@ -89,6 +89,16 @@ def real_outputs(inp):
     except Exception as e:
         ways.append(('feed-bytes-halves', e))
     try:
+        r = mido.parse(inp)
+        ways.append(('parse', [] if r is None else [r]))
+    except Exception as e:
+        ways.append(('parse', e))
+    try:
+        r = mido.parse(bytes(inp))
+        ways.append(('parse-bytes', [] if r is None else [r]))
+    except Exception as e:
+        ways.append(('parse-bytes', e))
+    try:
         tk = Tokenizer()
         for b in inp:
             tk.feed_byte(b)
@@ -111,6 +121,12 @@ def compare(inp, out):
                 if not is_valid_message(m):
                     return 'invalid-message', '%s yielded %r' % (how, m)
             gb = [list(m.bytes()) for m in got]
+            if any(m.time != 0 for m in got):
+                return 'stamped-message/' + how, '%s yielded a message that already carries a time: %s' % (how, core.srepr(got))
+        if how.startswith('parse') and not how.startswith('parse_all'):
+            if gb != out[:1]:            # parse(): the first message, or None
+                return 'wrong-output/' + how, '%s gave %r expected %r' % (how, gb, out[:1])
+            continue
         if gb != out:
             return 'wrong-output/' + how, '%s gave %r expected %r' % (how, gb, out)
         # the caller owns what it was given: changing it must not show in later results
@@ -272,7 +288,7 @@ def run_traces(ctx, n_traces, length, label='TokenizerTrace'):
         meta.append((rseed, stream))
     # bursts: very many complete messages fed before anything is retrieved
     import mido
-    for nmsg in ((1500,) if n_traces < 50 else (1500, 5000, 20000)):
+    for nmsg in ((1500,) if n_traces < 50 else (1500, 3000)):   # (TLC cost grows quadratically; 20 000 is covered by check_scale)
         rseed = rng.randrange(1 << 30)
         stream = [0xfa] + [rng.choice([0xf8, 0xf8, 0xfe, 0xf6]) for _ in range(nmsg)] + [0x90, 1, 2, 0xfc]
         p = mido.Parser()
